@@ -115,6 +115,8 @@ fn suffix_alphabet(tier: Tier) -> Vec<Op> {
         // delete the file secret (blob removed, files log has a delete)
         Op::DeleteSecret { s: 3 },
         Op::Rename { f: 0 },
+        // a second external file owned by the file secret
+        Op::AttachField { s: 3 },
     ];
     if tier == Tier::Thorough {
         v.push(Op::Folder { flags: false, desc: false });
@@ -141,8 +143,15 @@ fn sim(st: &mut St, op: &Op) -> Option<()> {
                 return None;
             }
         }
-        Op::Update { s } | Op::CustomField { s } | Op::AttachField { s } => {
+        Op::Update { s } | Op::CustomField { s } => {
             if !secret_ok(st, *s) || st.secrets[*s].3 == "file-ext" {
+                return None;
+            }
+        }
+        // a file field may also be added to the file secret itself (one
+        // secret then owns two external files)
+        Op::AttachField { s } => {
+            if !secret_ok(st, *s) {
                 return None;
             }
         }
